@@ -477,12 +477,21 @@ impl GenDef {
         Ok(b)
     }
 
+    pub fn ingredient_description(title: &str) -> String {
+        format!("description of {title}")
+    }
+    pub fn ingredient_info_uri(title: &str) -> String {
+        format!("https://verif.invalid/info/{}", title.len())
+    }
     pub fn ingredient_json(&self, i: usize) -> String {
         let g = &self.ingredients[i];
         let mut m = Map::new();
         m.insert("relationship".into(), json!(g.relationship));
         if let Some(t) = &g.title {
             m.insert("title".into(), json!(t));
+            // free-text ingredient fields, derived from the title so that a monitor can predict them
+            m.insert("description".into(), json!(Self::ingredient_description(t)));
+            m.insert("informational_URI".into(), json!(Self::ingredient_info_uri(t)));
         }
         if let Some(l) = &g.label {
             m.insert("label".into(), json!(l));
